@@ -282,6 +282,14 @@ func (r *Route) goodRegexString(n, v string) {
 	}
 }
 
+// check the compiled regex: each capturing group must belong to one path var,
+// otherwise matchRegex() will panic(index out of range) on lookup.
+func (r *Route) goodRegexGroups() {
+	if num := r.regex.NumSubexp(); num != len(r.matches) {
+		goutil.Panicf("invalid route path '%s', dont allow capturing groups(found %d, path vars %d)", r.path, num, len(r.matches))
+	}
+}
+
 // check start string and match a regex route
 func (r *Route) match(path string) (ps Params, ok bool) {
 	// check start string
